@@ -167,6 +167,18 @@ def gen_history(rng: random.Random, lf: int, n_ops: int, n_tok: int, invalid_rat
                 # re-insert a live token far before the insertion point: must be refused
                 i = rng.randrange(2, len(live))
                 ops.append(('ins_after', live[i], [live[0]]))
+            elif c < 0.85 and len(live) >= 2:
+                # re-insert the token that sits exactly at the end of the removed range / at the insertion
+                # point (position j of [i, j)): inside the old inclusive guard, must be refused
+                i = rng.randrange(0, len(live) - 1)
+                j = rng.randrange(i, len(live) - 1) if rng.random() < 0.6 else i
+                if j == i:
+                    if rng.random() < 0.5:
+                        ops.append(('ins_before', live[i], [live[i]]))
+                    else:
+                        ops.append(('ins_after', live[i], [live[i + 1]]))
+                else:
+                    ops.append(('splice', [live[j]], live[i], live[j - 1]))
             elif free:
                 ops.append(('remove', free[-1], None))
             continue
@@ -220,6 +232,66 @@ def gen_history(rng: random.Random, lf: int, n_ops: int, n_tok: int, invalid_rat
             # text update, on live and (sometimes) free tokens
             t = rng.choice(live) if rng.random() < 0.9 or not free else rng.choice(free)
             ops.append(('set_text', t, gen_text(rng)))
+    return texts, ops
+
+
+def gen_directed(rng: random.Random, lf: int):
+    """Directed multi-block histories: the situations block bookkeeping is fragile in - a removal that
+    spans several blocks and leaves a small remainder (merge with the previous / next block, merge that
+    re-balances against an over-full neighbour), block 0 shrinking, line-break changes N -> M in a token of
+    a block that has blocks behind it, same-length text changes that move a line break."""
+    k = rng.choice([3, 4, 6, 8])
+    n_live = k * lf
+    spare = 2 * lf + 4
+    n_tok = n_live + spare
+    texts = [rng.choice(['a', 'b\n', 'cd', '\n', 'e\nf', '', 'x\ny\nz', 'gh ']) for _ in range(n_tok)]
+    live = list(range(1, n_live + 1))
+    free = list(range(n_live + 1, n_tok + 1))
+    ops = [('from_tokens', list(live))]
+    if k >= 4 and rng.random() < 0.35:
+        # merge-with-previous that re-balances: block p grown to 2*LF-1, then a removal that starts at the first
+        # token of block p+1, spans into a later block and leaves <= LF/2 tokens of it
+        pblk = rng.randrange(0, k - 3)
+        at = pblk * lf + rng.randrange(lf)
+        new = [free.pop() for _ in range(min(len(free), lf - 1))]
+        ops.append(('ins_after', live[at], new))
+        live[at + 1:at + 1] = new
+        a = (pblk + 1) * lf + len(new)
+        keep = rng.randrange(0, max(1, lf // 2) + 1)
+        b = a + 2 * lf - keep - 1
+        if b < len(live):
+            ops.append(('remove', live[a], live[b]))
+            free[0:0] = live[a:b + 1]
+            del live[a:b + 1]
+    elif rng.random() < 0.5:                       # grow one block beyond 1.5 * LF
+        at = rng.randrange(len(live))
+        new = [free.pop() for _ in range(min(len(free), lf - 1 + rng.randrange(0, 2)))]
+        ops.append(('ins_after', live[at], new))
+        live[at + 1:at + 1] = new
+    for _ in range(rng.choice([1, 2, 3])):
+        c = rng.random()
+        if c < 0.6 and len(live) > 2 * lf:
+            a = rng.choice([0, 0, rng.randrange(len(live) // 2), lf, lf - 1, 2 * lf])
+            a = min(a, len(live) - 1)
+            span = rng.choice([lf + 1, 2 * lf - 1, 2 * lf, 2 * lf + 1, 3 * lf])
+            b = min(len(live) - 1, a + span)
+            ops.append(('remove', live[a], live[b]))
+            free[0:0] = live[a:b + 1]
+            del live[a:b + 1]
+        elif c < 0.85 and live:
+            t = rng.choice(live)
+            old = texts[t - 1]
+            cand = [x for x in ['p\nq', 'p\nq\nr\ns', 'pq', '\n\n', 'pqrst', 'p\nqrs', 'pq\nrs'] if x != old]
+            same_len = [x for x in cand if len(x) == len(old)]
+            ops.append(('set_text', t, rng.choice(same_len or cand)))
+        elif live and free:
+            a = rng.randrange(len(live))
+            b = min(len(live) - 1, a + rng.choice([0, lf, 2 * lf]))
+            new = [free.pop() for _ in range(min(len(free), rng.choice([0, 1, lf])))]
+            ops.append(('splice', new, live[a], live[b]))
+            removed = live[a:b + 1]
+            live[a:b + 1] = new
+            free[0:0] = removed
     return texts, ops
 
 
@@ -283,8 +355,32 @@ def run_history(lf: int, texts: list[str], ops: list) -> tuple[list[tuple[Any, d
             fails.append({'sig': 'C07:refusal-mismatch', 'what': f'op {op} returned code {res}, list reference '
                           f'{"refuses" if exp_err else "accepts"} it', 'where': where})
             break
-        # ---- C07: the store agrees with the plain list
+        # ---- C08, stated on the store's own iteration (independent of the list reference): the reported
+        #      position of every token the store iterates is the (line, column) of its first character in the
+        #      concatenation of the iterated tokens, and its reported index is its ordinal
         got = d['obs'][-1]
+        line = col = 0
+        c08 = None
+        seen_twice = len(set(got)) != len(got)
+        for i, t in enumerate(got):
+            if not (1 <= t <= len(texts)) or seen_twice:
+                break
+            o = d['obs'][t - 1]
+            if o[:2] != [0, i]:
+                c08 = ('C08:index', f'get_index({t}) = {o[:2]}, but it is token number {i} of the store')
+                break
+            if o[2:5] != [0, line, col]:
+                c08 = ('C08:position', f'get_position({t}) = {o[2:5]}, the concatenated text puts it at {(line, col)}')
+                break
+            sx = impl.toks[t].raw_text
+            if '\n' in sx:
+                line += sx.count('\n')
+                col = len(sx) - sx.rfind('\n') - 1
+            else:
+                col += len(sx)
+        if c08:
+            fails.append({'sig': c08[0], 'what': f'after {op}: {c08[1]}', 'where': where})
+        # ---- C07: the store agrees with the plain list
         if got != ref:
             fails.append({'sig': 'C07:iteration', 'what': f'after {op}: iteration {got} != list {ref}', 'where': where})
             break
